@@ -31,6 +31,7 @@ package pool
 
 //@ func New
 //@   params max
+//@   locals maxSize shardSize stepSize
 //@   mode bv
 //@   requires max <= pmath.maxintHeadBit
 //@   ensures inv(result) && result != nil
@@ -38,6 +39,7 @@ package pool
 
 //@ func (*Pool[T]).Get
 //@   params p size
+//@   locals n idx v zero
 //@   mode bv
 //@   requires inv(p) && 0 <= size && size <= pmath.maxintHeadBit
 //@   requires SIall: forallint(i, forallv(x, T, forallint(s, SI(p, i, x, s))))
